@@ -54,6 +54,11 @@ def _strategy(draw):
         a = gen.a_storage(draw, cx, "s%d" % i, mip=(variant == "mip"), blocks=(variant == "blocks"))
         if variant == "blocks" and draw(st.booleans()):
             a["end_level"] = a["start_level"]
+        if variant == "mip" and draw(st.integers(0, 3)) == 0:
+            # the option on a loss-free storage (no efficiency loss, no costs), where possible between two nodes
+            a.update(no_simult=True, eff_in=1.0, cost_in=0.0, cost_out=0.0)
+            if nn >= 2:
+                a["nodes"] = list(draw(st.permutations(nodes))[:2])
         if variant in ("coarse", "periodic"):
             # the storage's own coarser frequency / periodicity: several grid steps per variable.  Only what the
             # statement says about the physical and the reported level is examined here (the formulation is C13's)
